@@ -37,14 +37,14 @@ ValidateExpected(c) == IF c.mh \in {"ownAlgOwnValue", "otherAlgOwnValue"} THEN "
 CommitCases == [kind : {"commit"}, alg : Algs, kt : 0..4, nonce : BOOLEAN]
 CommitExpected(c) == "equal"
 
-Segments == {"canonical", "reordered", "whitespace", "suffixDataAltered", "deltaAltered", "memberAdded", "typeMemberIncluded", "badBase64", "paddedBase64",
+Segments == {"canonical", "reordered", "whitespace", "suffixDataAltered", "deltaAltered", "memberAdded", "typeMemberIncluded", "foreignTypeMember", "badBase64", "paddedBase64",
              "trailingBits", "byteChanged", "empty", "notJson"}
 \* the DID's suffix: the hash of the embedded suffix data, another hash, or a near miss of the right one (leading
 \* characters dropped, trailing characters dropped, characters added)
 LongCases == [kind : {"longform"}, alg : Algs, segment : Segments, suffix : {"match", "other", "tail", "head", "extended"}]
-LongExpected(c) == IF c.segment = "canonical" /\ c.suffix = "match" THEN "resolves"
-                   ELSE IF c.segment = "typeMemberIncluded" /\ c.suffix = "match" THEN "either"   \* JCS of {delta, suffixData, type: create}: same value plus the implied type
-                   ELSE "rejected"
+\* an initial state that additionally carries "type":"create" is an altered initial state, too (the code tolerates it: an
+\* existing test of the repository relies on that - recorded as a known finding, not repaired)
+LongExpected(c) == IF c.segment = "canonical" /\ c.suffix = "match" THEN "resolves" ELSE "rejected"
 
 Expected(c) == CASE c.kind = "hash" -> HashExpected(c) [] c.kind = "validate" -> ValidateExpected(c)
                  [] c.kind = "commit" -> CommitExpected(c) [] c.kind = "longform" -> LongExpected(c)
